@@ -97,31 +97,26 @@ def clobber_runs(rng, n):
 
 
 def reload_runs(rng, n):
-    """stage prefixes interleaved with to_dict/from_dict; a clobber = a name present before a
-    stage that is bound to a different kind of block (or lost) after it."""
+    """stage prefixes interleaved with to_dict/from_dict; the final hierarchy is judged against the
+    original graph by the Lean deciders (unique names, conserved, path equivalence): a generated
+    name that re-binds an existing block shows up as a lost / altered block or a changed path."""
     runs, fails, io_aborts = 0, [], Counter()
+    drv = common.Driver()
+    lines, meta = [], []
     for _ in range(n):
-        k = rng.randint(3, 8)
-        succ = gen.rand_template(rng, k) if rng.random() < 0.5 else gen.rand_closed(rng, k)
+        k = rng.randint(4, 10)
+        succ = gen.rand_template(rng, k) if rng.random() < 0.7 else gen.rand_closed(rng, k)
         scfg = export.mk_scfg(succ)
+        gtop, gline = export.export(scfg)
         ops = [("join_returns", lambda s: s.join_returns()), ("restructure_loop", lambda s: s.restructure_loop()),
                ("restructure_branch", lambda s: s.restructure_branch())]
         reload_after = rng.randint(0, 2)
         ok = True
         for i, (nm, op) in enumerate(ops):
-            before = {n: type(b).__name__ for n, b in scfg.graph.items()}
             try:
                 op(scfg)
             except Exception as e:  # noqa: BLE001
-                io_aborts[f"{nm}:{type(e).__name__}"] += 1
-                ok = False
-                break
-            after = {n: type(b).__name__ for n, b in scfg.graph.items()}
-            allnames = {e[1] for e in export.export_entries(scfg, "top")}
-            lost = [n for n, t in before.items() if n not in allnames]
-            changed = [n for n, t in before.items() if n in after and after[n] != t]
-            if lost or changed:
-                fails.append({"succ": succ, "reload_after_stage": reload_after, "stage": nm, "lost": lost, "rebound": changed})
+                fails.append({"succ": succ, "reload_after_stage": reload_after, "stage": nm, "what": "abort " + type(e).__name__})
                 ok = False
                 break
             if i == reload_after:
@@ -132,6 +127,18 @@ def reload_runs(rng, n):
                     ok = False
                     break
         runs += 1
+        if ok:
+            top, line = export.export(scfg)
+            lines += [f"G {gtop} {gline}", f"H {top} {line}", "CHK"]
+            meta += [None, None, (succ, reload_after)]
+    rep = drv.run(lines) if lines else []
+    for m, r in zip(meta, rep):
+        if m is None:
+            continue
+        chk = hier.parse_chk(r)
+        if chk.get("conserved") != "1" or chk.get("wf", "0")[0] != "1" or chk.get("simName") != "1":
+            fails.append({"succ": m[0], "reload_after_stage": m[1], "stage": "final",
+                          "what": f"conserved={chk.get('conserved')} unique-names={chk.get('wf', '0')[0]} paths={chk.get('simName')}"})
     return runs, fails, io_aborts
 
 
@@ -172,7 +179,7 @@ def run(ctx):
                            "what": f"restructuring a graph whose block names lie in the generator's namespace clobbers / loses a block ({len(cfails)} of {nclob} runs)",
                            "payload": {"input_succ": [list(s) for s in f["succ"]], "names": f["names"], "stage": f["stage"],
                                        "observed": f["what"], "count": len(cfails)}})
-    nrel, rfails, io_aborts = reload_runs(rng, 300 if quick else 8000)
+    nrel, rfails, io_aborts = reload_runs(rng, 800 if quick else 20000)
     if rfails:
         f = min(rfails, key=lambda x: len(x["succ"]))
         violations.append({"signature": {"cause": "reload-resets-counters"},
